@@ -80,8 +80,12 @@ PROPS = {
     "C16": ("other", "Accessor identities for every Match with <= 3 groups over a small name alphabet; successful_match "
             "builds one slot per group from the group data; capture instructions write exactly their group."),
     "C17": ("other", "expand_replacement/replace* against the template specification on bounded templates/haystacks."),
-    "C18": ("other", "escape's per-character table for every char and the parser's treatment of \\c for the syntax "
-            "characters; end-to-end 'matches exactly s' needs C01."),
+    "C18": ("other", "escape(s) == esc_spec(s) for EVERY string s (Verus, unbounded, on the function text extracted from "
+            "src/api.rs): each of the 14 syntax characters gets one backslash, every other character is copied in order; "
+            "and the parser's CharacterEscape maps `\\c` back to the literal c for each of those characters in every mode, "
+            "for every code point without panicking (Kani). NOT decided: that every non-syntax character parses as "
+            "itself in every mode (consume_term does not close) and the end-to-end statement 'the compiled pattern finds "
+            "exactly the occurrences of s', which needs C01-level composition."),
     "C19": ("proof", "Type-level frame condition: Regex, Match, Error are Send + Sync + DeepFrozen (no UnsafeCell "
             "reachable, dependencies included) - a &Regex cannot be written through, so no interleaving or earlier "
             "query can change a result; plus unsafe-site and global-state inventory."),
